@@ -40,7 +40,7 @@ func ruleC02_7(c *Ctx) {
 			continue
 		}
 		for _, rc := range ringCalls {
-			gs := guardsAt(rc.Block())
+			gs := guardsOf(rc)
 			okG := guardHas(gs, func(g Guard) bool { _, is := p.isCallTo(g.Cond, listEmpty); return is && g.Truth })
 			c.check(okG, "elastic.Buffer."+m+": ring written only while the list is empty", c.at(rc), "dominated by listBuffer.IsEmpty()",
 				"new bytes can be put into the ring part while older bytes still wait in the overflow list; the ring is drained first, so the newer bytes overtake the older ones (a slow reader receives a later reply spliced into an earlier one; a slow node receives requests out of order)", withGuards(gs))
@@ -123,7 +123,7 @@ func ruleC03_7(c *Ctx) {
 			continue
 		}
 		n++
-		encl := outermost(s.Fn)
+		encl := homeFn(s.Fn)
 		c.touch(encl)
 		name := "MsgPool.Put in " + shortFn(encl)
 		if s.Call == nil {
@@ -138,7 +138,7 @@ func ruleC03_7(c *Ctx) {
 			flushed := false
 			for _, w := range p.callsIn(sread, writev) {
 				if dominatesInstr(w.(ssa.Instruction), s.Instr) {
-					if guardHas(guardsAt(s.Instr.Block()), func(g Guard) bool {
+					if guardHas(guardsOf(s.Instr), func(g Guard) bool {
 						x, op, y, ok := cmpGuard(g)
 						ex, isEx := x.(*ssa.Extract)
 						return ok && op == token.EQL && isNilConst(y) && isEx && ex.Tuple == w.Value()
@@ -150,7 +150,7 @@ func ruleC03_7(c *Ctx) {
 			c.check(popped && flushed, name, c.at(s.Instr), "recycles a message popped from the client queue after its reply was written",
 				"a Msg is recycled in the backend read path although it was not just popped after a successful flush: fragments in flight still point at it and complete whichever request re-uses the object")
 		case cread:
-			okG := guardHas(guardsAt(s.Instr.Block()), func(g Guard) bool {
+			okG := guardHas(guardsOf(s.Instr), func(g Guard) bool {
 				x, op, y, ok := cmpGuard(g)
 				if !ok || op != token.NEQ || !isNilConst(y) {
 					return false
@@ -163,7 +163,7 @@ func ruleC03_7(c *Ctx) {
 				return ok && call.Call.IsInvoke() && call.Call.Method.Name() == "OnCReact"
 			})
 			c.check(okG, name, c.at(s.Instr), "recycles a request that OnCReact answered locally (out != nil; C03.1: none of its fragments was routed)",
-				"MsgPool.Put(r) in cread is not confined to the out != nil edge: a forwarded request would be recycled while queued and in flight", withGuards(guardsAt(s.Instr.Block())))
+				"MsgPool.Put(r) in cread is not confined to the out != nil edge: a forwarded request would be recycled while queued and in flight", withGuards(guardsOf(s.Instr)))
 		default:
 			c.bad(name, c.at(s.Instr), "a Msg is returned to the pool outside the two places where nothing can refer to it any more (post-flush pop in eventloop.sread, locally answered request in eventloop.cread): e.g. recycling the queued requests of a closing client leaves their in-flight fragments pointing at objects that the next requests re-use, so a late reply completes (and is delivered to) another client's request")
 		}
